@@ -164,6 +164,16 @@ class BuildMachine(Machine):
                         ["overlimit", "permit ip 10.0.0.0 0.85.85.85 any"])
         if w.random() < cfg["p_invalid"]:
             body.append(["invalid", self._invalid_line(w, platform, pool)])
+        if w.random() < 0.25:
+            # the ignorable words somewhere *inside* a line do not make it ignorable
+            seq = w.choice(["", "", f"{w.randint(1, 900)} "])
+            body.insert(w.randint(0, len(body)), ["valid", seq + "remark " + w.choice([
+                "see description in ticket 42", "ignore fragments below",
+                "statistics per-entry enabled here", "no description yet", "do not ignore this"])])
+            if w.random() < cfg["p_invalid"]:
+                body.insert(w.randint(0, len(body)), ["invalid", w.choice([
+                    "foo ignore bar", "x description y", "show statistics now",
+                    "permit ignore me", "deny description any"])])
         body = body[: cfg["max_lines"]]
         # random indentation / inner whitespace (normalised by the library)
         out = []
@@ -231,6 +241,13 @@ class BuildMachine(Machine):
             return dict(op="build", target=target, via="flip_setter", platform=platform,
                         version=version, lines=body, fail_at=None, fault_mode="raise",
                         max_ncwb=lim)
+        if target == "Acl" and platform == "nxos" and version == "0" and s.random() < 0.1:
+            # a standard IOS ACL whose conversion to NX-OS is refused (documented) and that is
+            # then given NX-OS text under its own name: the text is what the object is built from
+            body = self._acl_body(w, platform, 16, version)
+            return dict(op="build", target=target, via="refused_flip", platform=platform,
+                        version=version, lines=body, fail_at=None, fault_mode="raise",
+                        max_ncwb=16)
         if key in self.live and s.random() < 0.4:
             via = "setter"
             max_ncwb = self.live_ncwb.get(key, 16)
@@ -337,6 +354,15 @@ class BuildMachine(Machine):
         if target == "Acl":
             head = gen.header(platform, "extended", "T1")
             text = "\n".join([head, *texts])
+            if via == "refused_flip":
+                obj = Acl("ip access-list standard T1\n permit host 10.0.0.1\n deny any",
+                          platform="ios")
+                try:
+                    obj.platform = platform
+                except DOCUMENTED:
+                    self.probes["text_after_refused_flip"] += 1
+                obj.line = text
+                return obj
             if via == "setter":
                 obj = self.live[key]
                 obj.line = text
